@@ -53,6 +53,23 @@ val repeat_rune : coq_N -> coq_Z -> coq_N list option
 
 val display_step : bool -> coq_Z -> coq_Z -> coq_Z
 
+type tick =
+| TkNum of coq_Z
+| TkName of coq_N list
+| TkSize of coq_Z
+| TkStep of coq_Z * coq_Z * coq_N list * coq_N list * coq_N list
+| TkDone of coq_Z * coq_N list * coq_N list * coq_N list
+| TkPre of coq_Z
+| TkPause of bool
+
+type sevent =
+| SeResize of coq_Z
+| SeStart of bool * coq_Z
+| SeTick of tick
+| SePromptOpen
+| SePromptClose
+| SeEnd
+
 val ell_loop :
   (coq_N -> nat) -> coq_N list -> coq_Z -> coq_Z -> coq_N list * coq_Z
 
@@ -133,6 +150,26 @@ val run :
 
 val wr_bytes : wr -> coq_N list option
 
+type session = { s_cols : coq_Z; s_bar : pstate option }
+
+val sess_init : coq_Z -> session
+
+type swr =
+| SwBar of wr
+| SwShow
+
+val tick_op : tick -> op
+
+val sess_on_bar :
+  (coq_N -> nat) -> (coq_N list -> nat) -> (coq_Z -> coq_Z -> coq_Z -> coq_Z)
+  -> bool -> session -> op -> session * swr list
+
+val sess_step :
+  (coq_N -> nat) -> (coq_N list -> nat) -> (coq_Z -> coq_Z -> coq_Z -> coq_Z)
+  -> bool -> sevent -> session -> session * swr list
+
+val swr_bytes : swr -> coq_N list option
+
 val progress_bar :
   (coq_Z -> coq_Z -> coq_Z -> coq_Z) -> coq_Z -> coq_Z -> coq_Z -> bres
 
@@ -149,3 +186,7 @@ val run_cur :
 
 val pct_text_cur :
   (coq_Z -> coq_Z -> coq_Z -> coq_Z) -> coq_Z -> coq_Z -> coq_N list
+
+val sess_step_cur :
+  (coq_N -> nat) -> (coq_N list -> nat) -> (coq_Z -> coq_Z -> coq_Z -> coq_Z)
+  -> sevent -> session -> session * swr list
